@@ -543,6 +543,14 @@ int main(int argc, char **argv) {
       } else if (!strcmp(a1, "socket")) fd = socket(AF_UNIX, SOCK_STREAM, 0);
       else if (!strcmp(a1, "dir")) fd = open((char *)path, O_RDONLY | O_DIRECTORY);
       else if (!strcmp(a1, "devnull")) fd = open("/dev/null", O_RDWR);
+      else if (!strcmp(a1, "eventfd")) fd = (int)syscall(SYS_eventfd2, 0, 0);
+      else if (!strcmp(a1, "epoll")) fd = (int)syscall(SYS_epoll_create1, 0);
+      else if (!strcmp(a1, "high")) {
+        // a descriptor with a large number (the highest the soft limit allows, at most 1000)
+        int lo = open("/dev/null", O_RDONLY);
+        for (int want = 1000; want > 64 && fd < 0; want -= 100) fd = dup2(lo, want);
+        if (lo >= 0) close(lo);
+      } else if (!strcmp(a1, "creat")) fd = open((char *)path, O_RDWR | O_CREAT | O_APPEND, 0640);
       if (fd < 0) reply("err fd %d", errno);
       else reply("ok %d", fd);
     } else if (!strcmp(cmd, "close")) {
